@@ -1315,6 +1315,103 @@ func genC05(r *hx.R, tier string, scratch string) (*hx.Suite, error) {
 	}
 	g.sweep(tier)
 	g.malformed(tier)
+	g.constants()
 	s.Extra = map[string]interface{}{"x_option_vectors": len(vecs), "x_stats": g.stats}
 	return s, nil
+}
+
+
+// constants probes the validation constants as the translator tools/gen_consts.py read them from the source on this run
+// (coq/gen/consts.json): every hook stage, device node type and permission character the code names — a value added to the
+// code shows up here as a Spec the library accepts and WF rejects —, and the length limits at and one beyond their value.
+func (g *gen05) constants() {
+	data, err := os.ReadFile(filepath.Join(os.Getenv("VERIF_DIR"), "coq", "gen", "consts.json"))
+	if err != nil {
+		return
+	}
+	var c struct {
+		HookNames  []string `json:"hook_names"`
+		NodeTypes  []string `json:"node_types"`
+		PermChars  []string `json:"perm_chars"`
+		ClosidMax  int      `json:"closid_max"`
+		QnameMax   int      `json:"qname_max"`
+		SubdomMax  int      `json:"dns_subdomain_max"`
+		Forbidden  []string `json:"closid_forbidden"`
+		BadChars   string   `json:"closid_badchars"`
+		AnnotLimit int      `json:"annot_size_limit"`
+	}
+	if json.Unmarshal(data, &c) != nil {
+		return
+	}
+	base := func() *specs.Spec {
+		return &specs.Spec{Version: "1.0.0", Kind: "vendor.com/class", Devices: []specs.Device{{Name: "dev0", ContainerEdits: specs.ContainerEdits{Env: []string{"A=b"}}}}}
+	}
+	for _, h := range append(append([]string{}, c.HookNames...), "prestop", "Prestart", "") {
+		sp := base()
+		sp.Devices[0].ContainerEdits.Hooks = []*specs.Hook{{HookName: h, Path: "/bin/h"}}
+		g.addSpec("constants/hook stage", map[string]interface{}{"hookName": h}, sp, true)
+	}
+	for _, t := range append(append([]string{}, c.NodeTypes...), "f", "B", "cc") {
+		sp := base()
+		sp.Devices[0].ContainerEdits.DeviceNodes = []*specs.DeviceNode{{Path: "/dev/x", Type: t}}
+		g.addSpec("constants/node type", map[string]interface{}{"type": t}, sp, true)
+	}
+	for _, p := range append(append([]string{}, c.PermChars...), "x", "R", "rwmx") {
+		sp := base()
+		sp.Devices[0].ContainerEdits.DeviceNodes = []*specs.DeviceNode{{Path: "/dev/x", Permissions: "r" + p}}
+		g.addSpec("constants/permission character", map[string]interface{}{"permissions": "r" + p}, sp, true)
+	}
+	for _, n := range []int{c.ClosidMax - 1, c.ClosidMax} {
+		if n < 1 || n > 1<<16 {
+			continue
+		}
+		sp := base()
+		sp.Version = "1.0.0"
+		sp.Devices[0].ContainerEdits.IntelRdt = &specs.IntelRdt{ClosID: strings.Repeat("c", n)}
+		g.addSpec("constants/closID length", map[string]interface{}{"length": n}, sp, true)
+	}
+	for _, bad := range append(append([]string{}, c.Forbidden...), strings.Split(c.BadChars, "")...) {
+		sp := base()
+		sp.Devices[0].ContainerEdits.IntelRdt = &specs.IntelRdt{ClosID: bad}
+		g.addSpec("constants/closID forbidden", map[string]interface{}{"closID": bad}, sp, true)
+		sp2 := base()
+		sp2.Devices[0].ContainerEdits.IntelRdt = &specs.IntelRdt{ClosID: "a" + bad + "b"}
+		g.addSpec("constants/closID forbidden", map[string]interface{}{"closID": "a" + bad + "b"}, sp2, true)
+	}
+	for _, n := range []int{c.QnameMax, c.QnameMax + 1} {
+		if n < 1 || n > 4096 {
+			continue
+		}
+		sp := base()
+		sp.Annotations = map[string]string{strings.Repeat("k", n): "v"}
+		g.addSpec("constants/annotation name length", map[string]interface{}{"length": n}, sp, true)
+	}
+	for _, n := range []int{c.SubdomMax, c.SubdomMax + 1} {
+		if n < 4 || n > 4096 {
+			continue
+		}
+		// a DNS subdomain of exactly n bytes: labels of at most 63 separated by dots
+		var b strings.Builder
+		for b.Len() < n {
+			k := n - b.Len()
+			if b.Len() > 0 {
+				b.WriteByte('.')
+				k--
+			}
+			if k > 60 {
+				k = 60
+			}
+			if k <= 0 {
+				break
+			}
+			b.WriteString(strings.Repeat("d", k))
+		}
+		pre := b.String()
+		if len(pre) != n {
+			continue
+		}
+		sp := base()
+		sp.Annotations = map[string]string{pre + "/name": "v"}
+		g.addSpec("constants/annotation prefix length", map[string]interface{}{"length": n}, sp, true)
+	}
 }
